@@ -789,6 +789,22 @@ fn run_data_mutation(plan: &Value, rec: &mut Rec, signed: &Signed, content: &Arc
                     if let Some(msg) = &signed.message {
                         let others = [ok];
                         if !signed.signers.iter().any(|s| s.name == ok.name) {
+                            // the batch entry point with the unrelated key in front of / behind the signers
+                            if let Ok(mut m) = Message::from_bytes(&msg[..]) {
+                                let (_, end) = seams::drain(&mut m, &Consumer::ReadToEnd, content.len() + 4096);
+                                if end.is_ok() {
+                                    for front in [true, false] {
+                                        let mut ks: Vec<&dyn pgp::types::VerifyingKey> = signed.signers.iter().map(|s| &s.public as &dyn pgp::types::VerifyingKey).collect();
+                                        let at = if front { 0 } else { ks.len() };
+                                        ks.insert(at, &ok.public);
+                                        if let Ok(res) = m.verify_nested(&ks) {
+                                            if matches!(res.get(at), Some(pgp::composed::VerificationResult::Valid(_))) {
+                                                accepted.push(format!("Message::verify_nested reports the key {} (position {at} of {}), which signed nothing, as valid", ok.name, ks.len()));
+                                            }
+                                        }
+                                    }
+                                }
+                            }
                             accepted.extend(verify_message(msg, content, &others, &Sched::Full, false).into_iter().filter(|x| x.1).map(|x| format!("{} under key {}", x.0, ok.name)));
                         }
                     }
